@@ -5,7 +5,7 @@ rule = ("SD, MAD >= 0 and never NaN; TR, ATR >= 0 for bars with low <= high; MIN
         "multipliers {0, 0.5, 2, 1e6}; CE long <= window max, short >= window min; MACD / PPO histogram == line - signal exactly; SMA, WMA within "
         "[window min, window max] and EMA within [history min, history max] up to tau(t)*maxmag: cancellation-prone streams (large values then flat, "
         "nearly flat after spikes), signed values up to 1e12, bars at negative price levels, tiny units, periods 1..16 and sampled to 64; all runs also compared bit-exactly with "
-        "the float model. Every third case also runs as a copy with one reset() after the window has wrapped. Non-trivial: distinct case longer than the period with inputs not all equal")
+        "the float model. Plus two 4400-input runs per indicator (plain; with 10^7 x spikes at inputs 300 and 2048) and tight windows (relative spread 1e-12..1e-4). Every third case also runs as a copy with one reset() after the window has wrapped. Non-trivial: distinct case longer than the period with inputs not all equal")
 assumptions = ["window extremes for the bound checks are computed by the driver from the inputs (exact comparisons)"]
 
 KINDS = ["SD", "MAD", "TR", "ATR", "BB", "KC", "CE", "MACD", "PPO", "SMA", "WMA", "EMA", "MINMAX"]
@@ -50,11 +50,22 @@ def gen_cases(ctx):
                 elif rep % 3 == 0:
                     feeds = [("n", 0, x) for x in cancel_stream(r, n, p)]
                 else:
-                    feeds = [("n", 0, x) for x in scalar_stream(r, n, rot.pick((ind, "n"), ["signed", "walk", "mixed", "flatafter", "segments", "tiny", "huge", "periodic"]), p=p)]
+                    feeds = [("n", 0, x) for x in scalar_stream(r, n, rot.pick((ind, "n"), ["signed", "walk", "mixed", "flatafter", "segments", "tiny", "huge", "periodic", "tight"]), p=p)]
                 if rep % 3 == 1:
                     feeds = sprinkle_serde(feeds, r)
                 cases.append(Case("%s_p%d_%d" % (ind, p, rep), [new_op(0, ind, pr)] + feeds, dump=(0,),
                                   meta={"ind": ind, "p": p, "n": n, "m": pr[3]}))
+    # seed-independent long runs (4400 inputs; 'spike': the 300th and the 2048th input are 10^7 times larger): maintenance code that
+    # only executes every 2^10 / 2^11 / 2^12 updates must leave the outputs inside their ranges too
+    for ind in KINDS:
+        if ind == "MINMAX":
+            continue
+        for p, kind in ((3, "spike"), (5, "plain")):
+            k = nper(ind)
+            pr = (p if k >= 1 else 0, 5 if k >= 2 else 0, 2 if k >= 3 else 0, 2.0 if ind in HAS_MULT else 0.0)
+            src = "CE" if ind in ("CE", "TR") else "SMA"
+            cases.append(Case("%s_long_p%d" % (ind, p), [new_op(0, ind, pr)] + long_feed(src, 4400, kind), dump=(),
+                              meta={"ind": ind, "p": p, "n": 4400, "m": pr[3]}))
     # known finding K8: finite inputs whose differences overflow binary64 make the running variance inf - inf = NaN
     H = 1.7e308
     for p in (1, 2, 3):
